@@ -60,6 +60,7 @@ func strictSemantics(c *Check, r *Repo) {
 					written++
 					return []Value{Nil{}}
 				}
+				it.natives["go/format.Node"] = it.natives["(*go/printer.Config).Fprint"]
 				it.natives["(*bytes.Buffer).WriteTo"] = func(it *Interp, args []Value) []Value {
 					written++
 					return []Value{int64(0), Nil{}}
